@@ -102,7 +102,7 @@ def datatype_factory(datatype, value, version=None, validation_level=None):
         if Validator.is_strict(validation_level):
             raise e
         # TODO: Do we really want this? In that case the parent's datatype must be changed accordingly
-        return factories['ST'](value)
+        return factories['ST'](value, validation_level=validation_level)
 
 
 def date_factory(value, datatype_cls, validation_level=None):
